@@ -179,7 +179,22 @@ func (x *Exec) exec(st *State, fr *Frame, in ssa.Instruction) []*State {
 		fr.regs[v] = fv
 	case *ssa.Range:
 		// iterator object: remember what is iterated
-		fr.regs[v] = &rangeIter{x: x.get(fr, v.X), t: v.X.Type()}
+		it := &rangeIter{x: x.get(fr, v.X), t: v.X.Type(), rng: v}
+		fr.regs[v] = it
+		if _, isMap := v.X.Type().Underlying().(*types.Map); isMap {
+			ks, _ := x.mapSorts(v.X.Type())
+			vis := Fresh("visited", ArrSort(ks, SBool))
+			m := x.scalar(it.x)
+			if m.IsInt() && m.I.Sign() < 0 {
+				for _, k := range x.ld.constMapByID[int(-m.I.Int64()-1000)].keys {
+					st.assumeDef(Not(Select(vis, k)))
+				}
+			} else {
+				bv := Sym("b!k", ks)
+				st.assumeDef(Forall([]*T{bv}, Not(Select(vis, bv))))
+			}
+			st.iters = append(st.iters, iterState{v, vis})
+		}
 	case *ssa.Next:
 		return x.next(st, fr, v)
 	case *ssa.If:
@@ -217,8 +232,9 @@ func (x *Exec) exec(st *State, fr *Frame, in ssa.Instruction) []*State {
 }
 
 type rangeIter struct {
-	x Val
-	t types.Type
+	x   Val
+	t   types.Type
+	rng *ssa.Range
 }
 
 func (x *Exec) allocRef(st *State) *T {
@@ -834,17 +850,55 @@ func (x *Exec) next(st *State, fr *Frame, v *ssa.Next) []*State {
 	}
 	mt := it.t
 	m := x.scalar(it.x)
-	ks, et := x.mapSorts(mt)
+	ks, _ := x.mapSorts(mt)
 	ok := Fresh("rng!ok", SBool)
 	k := Fresh("rng!k", ks)
-	var val Val
-	var has *T
 	kt := mt.Underlying().(*types.Map).Key()
 	kv, _ := x.unflatten(kt, []*T{k})
 	x.assumeTypeFacts(st, kv, kt)
-	val, has = x.mapLoad(st, mt, m, k)
-	st.assumeDef(Implies(ok, has))
-	_ = et
+	var vis *T
+	visIdx := -1
+	for i := range st.iters {
+		if st.iters[i].rng == it.rng {
+			vis = st.iters[i].visited
+			visIdx = i
+		}
+	}
+	var val Val
+	if m.IsInt() && m.I.Sign() < 0 {
+		// constant table: the key is one of the literal keys (as a term, so that the
+		// visited set is extensional on them)
+		tbl := x.ld.constMapByID[int(-m.I.Int64()-1000)]
+		var alts, all []*T
+		_, et := x.mapSorts(mt)
+		val = x.zero(et)
+		for i := len(tbl.keys) - 1; i >= 0; i-- {
+			alts = append(alts, Eq(k, tbl.keys[i]))
+			val = x.valIte(Eq(k, tbl.keys[i]), tbl.vals[i], val, et)
+			if vis != nil {
+				all = append(all, Select(vis, tbl.keys[i]))
+			}
+		}
+		st.assumeDef(Implies(ok, Or(alts...)))
+		if vis != nil {
+			st.assumeDef(Implies(Not(ok), And(all...)))
+		}
+	} else {
+		var has *T
+		val, has = x.mapLoad(st, mt, m, k)
+		st.assumeDef(Implies(ok, has))
+		if vis != nil {
+			dom := Select(st.heapArr(mapDomKey(mt), ArrSort(SInt, ArrSort(ks, SBool))), m)
+			bv := Sym("b!k", ks)
+			st.assumeDef(Implies(Not(ok), Forall([]*T{bv}, Implies(Select(dom, bv), Select(vis, bv)))))
+		}
+	}
+	if vis != nil {
+		st.assumeDef(Implies(ok, Not(Select(vis, k))))
+		nv := Fresh("visited", vis.Sort)
+		st.assumeDef(Eq(nv, Ite(ok, Store(vis, k, TTrue), vis)))
+		st.iters[visIdx].visited = nv
+	}
 	fr.regs[v] = TupleV{ok, kv, val}
 	return nil
 }
